@@ -20,17 +20,19 @@ PID = "C10"
 BACKENDS = ("Pandas", "SQLiteModel")
 
 
-def perturb(values: List[Any], ty: str) -> List[Any]:
+def perturb(values: List[Any], ty: str, variant: int = 0) -> List[Any]:
+    """three different ways of changing EVERY value of a column (a single affine change can leave a filter or an order unchanged)"""
     out = []
+    n = len(values)
     for i, v in enumerate(values):
-        if ty in ("int",):
-            out.append(7 + i if v is None else v + 11 + i)
+        if ty == "int":
+            out.append([7 + i if v is None else v + 11 + i, -3 - i if v is None else -(v + 5) - 2 * i, None if v is not None else 1][variant])
         elif ty == "float":
-            out.append(3.25 + i if v is None else v * 2.0 + 5.5 + i)
+            out.append([3.25 + i if v is None else v * 2.0 + 5.5 + i, -1.75 - i if v is None else -v - 4.5 - (n - i), None if v is not None else 0.5][variant])
         elif ty == "str":
-            out.append("q%d" % i if v is None else v + "z")
+            out.append(["q%d" % i if v is None else v + "z", "A%d" % (n - i), None if v is not None else "m"][variant])
         else:
-            out.append(True if v is None else (not v))
+            out.append([True if v is None else (not v), (i % 2 == 0), None if v is not None else False][variant])
     return out
 
 
@@ -53,22 +55,23 @@ def eval_case(spec, data) -> Dict[str, Any]:
         for col in schema:
             if col in used.get(t, set()):
                 continue
-            pdata = {k: dict(v) for k, v in data.items()}
-            pdata[t] = dict(pdata[t])
-            pdata[t][col] = perturb(list(data[t][col]), schema[col])
-            pframes = C.pandas_frames(spec, pdata)
-            for be, runner in (("pandas", C.run_pandas), ("sqlite", C.run_sqlite)):
-                if base[be][0] != "ok":
-                    res["skipped"] += 1
-                    continue
-                out = runner(ops, pframes)
-                res["checked"] += 1
-                if out[0] != "ok":
-                    res["fails"].append({"kind": "perturb", "table": t, "column": col, "backend": be, "detail": "raises after perturbing an unreported column: %s %s" % (out[1], out[2][:120])})
-                    continue
-                ok, why = C.frames_equiv(base[be][1], out[1], ordered=False)
-                if not ok:
-                    res["fails"].append({"kind": "perturb", "table": t, "column": col, "backend": be, "detail": "result changed when unreported column %s.%s changed: %s" % (t, col, why[:200])})
+            for variant in (0, 1, 2):
+                pdata = {k: dict(v) for k, v in data.items()}
+                pdata[t] = dict(pdata[t])
+                pdata[t][col] = perturb(list(data[t][col]), schema[col], variant)
+                pframes = C.pandas_frames(spec, pdata)
+                for be, runner in (("pandas", C.run_pandas), ("sqlite", C.run_sqlite)):
+                    if base[be][0] != "ok":
+                        res["skipped"] += 1
+                        continue
+                    out = runner(ops, pframes)
+                    res["checked"] += 1
+                    if out[0] != "ok":
+                        res["fails"].append({"kind": "perturb", "table": t, "column": col, "backend": be, "variant": variant, "detail": "raises after perturbing an unreported column: %s %s" % (out[1], out[2][:120])})
+                        continue
+                    ok, why = C.frames_equiv(base[be][1], out[1], ordered=False)
+                    if not ok:
+                        res["fails"].append({"kind": "perturb", "table": t, "column": col, "backend": be, "detail": "result changed when unreported column %s.%s changed: %s" % (t, col, why[:200])})
     # narrowing: rebuild over descriptions restricted to the reported columns
     if base["pandas"][0] == "ok":
         try:
@@ -144,6 +147,10 @@ def bounded(rep: Report, tier: str, seed: int) -> None:
                 spec = r["spec"]
                 data = {t: pool[r["di"]][t] for t in C.spec_tables(spec)}
                 key = "%s:unclassified:%s" % (PID, C.case_hash({"spec": spec, "f": {k: f[k] for k in ("kind", "backend")}, "col": f.get("column")}))
+                if f["kind"] == "perturb" and f.get("variant") == 2 and f["backend"] == "pandas" and "raises after perturbing" in f["detail"] and \
+                        ("incompatible column types" in f["detail"] or "can't compare" in f["detail"]):
+                    # the all-null perturbation of a column nobody reads still trips the Pandas executor's per-column type guess (same defect as C01's key of that name)
+                    key = "C10:util.guess_carried_scalar_type:all-null-column"
                 rep.violations.append(Violation(key=key, what="%s: %s" % (C.describe(spec), f["detail"]),
                                                 replay={"module": "cbc.c10", "case": {"spec": spec, "data": data}}))
     C.sort_violations(rep)
